@@ -63,3 +63,16 @@ impl Sentence {
         &&& forall|i: int| 0 <= i < self.chars.len() ==> #[trigger] self.groupable[i] as int == run_len(self.cinfos@, i)
     }
 }
+
+// ---- R9/R18 for Sentence::compute_basic: the std pieces it is built from (ASSUMED contracts) ----
+/// `s.char_indices()` collected: the i-th item is (byte offset of character i, character i)
+#[verifier::external_body]
+pub fn char_indices_vec(s: &String) -> (r: Vec<(usize, char)>)
+    ensures r.len() == s@.len(),
+        forall|i: int| 0 <= i < r.len() ==> (#[trigger] r[i]).1 == s@[i] && r[i].0 as int == utf8_off(s@, i),
+{ unimplemented!() }
+/// `s.len()`: the byte length, i.e. the offset one past the last character
+#[verifier::external_body]
+pub fn string_byte_len(s: &String) -> (r: usize)
+    ensures r as int == utf8_off(s@, s@.len() as int),
+{ unimplemented!() }
